@@ -2189,6 +2189,24 @@ impl BitvectorDomain {
         }
     }
 }
+// ---- extracted fn ad::trait AbstractDomain::merge_with ----
+impl BitvectorDomain {
+    #[verifier::exec_allows_no_decreases_clause]
+    fn merge_with( & mut self , other : & BitvectorDomain ) -> (r: & mut BitvectorDomain)
+    requires old(self).wf(), other.wf(),
+    ensures *final(r) == *final(self),      // `r` is the reference to `self` handed back
+            *old(self) == *other ==> *r == *old(self),
+            *old(self) != *other ==> *r is Top && (*r)->Top_0.0 as nat == old(self).bytes(),
+    {
+            if *self != *other {
+            let new_value = self.merge(other);
+
+            *self = new_value;
+        }
+
+        self
+    }
+}
 // ---- extracted fn ad::trait RegisterDomain::bin_op_bytesize ----
 impl BitvectorDomain {
     #[verifier::exec_allows_no_decreases_clause]
